@@ -106,7 +106,7 @@ def run(ctx, build):
         try:
             for i, (p, names, cls) in enumerate(imgs):
                 hist = []
-                for rep in range(3 if ctx.thorough else 2):
+                for rep in range(8 if ctx.thorough else 2):
                     for name, content in names.items():
                         mode = rng.choice([b'octet', b'octet', b'netascii'])
                         steps = rng.choice([None, None, 0, 1, 2])
